@@ -311,9 +311,14 @@ class Unit(HookHost):
             super().append(unit)
 
         def extend(self, units: Iterable["Unit"]) -> None:
+            units = list(units)
             for u in units:
                 u.parent = self._owner()
             super().extend(units)
+
+        def __iadd__(self, units: Iterable["Unit"]) -> "Unit._SubUnitsList":
+            self.extend(units)
+            return self
 
         def insert(self, i: Union[SupportsIndex, slice], unit: "Unit") -> None:
             unit.parent = self._owner()
@@ -329,17 +334,29 @@ class Unit(HookHost):
                 u.parent = None
             super().clear()
 
+        def remove(self, unit: "Unit") -> None:
+            super().remove(unit)
+            unit.parent = None
+
         def copy(self) -> "Unit._SubUnitsList":
-            return self.__init__(self._owner(), self)
+            return type(self)(self._owner(), self)
 
         def __setitem__(self, i: Union[SupportsIndex, slice], value: "Unit"):
+            if isinstance(i, slice):
+                value = list(value)
             current = self[i]
             if isinstance(current, list):
                 for u in current:
                     u.parent = None
             else:
                 current.parent = None
-            return super().__setitem__(i, value)
+            result = super().__setitem__(i, value)
+            if isinstance(i, slice):
+                for u in value:
+                    u.parent = self._owner()
+            else:
+                value.parent = self._owner()
+            return result
 
         def __delitem__(self, i: Union[SupportsIndex, slice]):
             current = self[i]
